@@ -11,7 +11,9 @@ from mc.oracles import wcs_zenithal as wz
 PROPERTY = "C16"
 LEVEL = "exploration"
 SHARDS = 16
-RULE = ("full product projection x CRVAL x pixel scale x pixel position x (ellipse size x axis ratio x angle); one "
+RULE = ("histories: five helpers of different images alive at once, every ordered pair (A, B) asked in the order A B A with "
+        "bit-identical sky / pixel arguments (helpers made up front or on first use); "
+        "full product projection x CRVAL x pixel scale x pixel position x (ellipse size x axis ratio x angle); one "
         "case = one (projection, CRVAL, scale), all positions/ellipses looped inside; non-trivial = vector/ellipse "
         "cases with size > 0 (all); distinct = distinct (header, pixel, size, ratio, angle)")
 ASSUMPTIONS = ["rotation-free square pixels, |CRVAL2| <= 85 (LONPOLE = 180)",
@@ -49,6 +51,72 @@ def cases(tier, seed):
     scales = SCALES if tier == "quick" else [1.0, 3.0, 10.0, 30.0, 60.0]
     for proj, crval, sc in itertools.product(PROJ, CRVALS, scales):
         yield "conversions", dict(proj=proj, crval=list(crval), scale=sc)
+    for first in range(len(LIVE)):
+        for upfront in (0, 1):
+            yield "interleaved", dict(first=first, upfront=upfront)
+
+
+LIVE = [("SIN", (30.0, -15.0), 10.0, None), ("TAN", (30.0, -15.0), 30.0, (40.5, 160.25)), ("ZEA", (30.0, -15.0), 5.0, (120.0, 33.0)),
+        ("SIN", (30.2, -14.9), 10.0, None), ("STG", (359.98, 72.0), 20.0, (10.0, 250.0))]
+
+
+def ev_interleaved(case, ctx):
+    """several helpers alive at once and asked in turn with bit-identical arguments: every answer must be the one of the
+    helper's own header (ordered pairs (A, B) of LIVE, call order A B A; helpers made up front or on first use)"""
+    made = {}
+
+    def helper(k):
+        if k not in made:
+            proj, crval, sc, crpix = LIVE[k]
+            hdr = wz.make_header(proj, crval, sc / 3600.0, SHAPE, beam=(3 * sc / 3600.0, 2 * sc / 3600.0, 20.0), **(dict(crpix=crpix) if crpix else {}))
+            made[k] = (hdr, WCSHelper.from_header(wz.to_fits_header(hdr)))
+        return made[k]
+    a = case["first"]
+    if case["upfront"]:
+        for k in range(len(LIVE)):
+            helper(k)
+    for b in range(len(LIVE)):
+        if b == a:
+            continue
+        # shared arguments: the reference position of A, of B, and a position seen from both images
+        hdr_a = helper(a)[0]
+        shared_sky = [tuple(float(v) for v in LIVE[a][1]), tuple(float(v) for v in LIVE[b][1])]
+        r_, d_ = wz.pix2sky(hdr_a, 150.0, 100.0)
+        shared_sky.append((float(r_), float(d_)))
+        shared_pix = [(100.0, 150.0), (1.0, 1.0), (57.25, 211.5)]
+        for step, k in enumerate((a, b, a)):
+            hdr, wcs = helper(k)
+            cd = LIVE[k][2] / 3600.0
+            sig = "live:%d_then_%d,step=%d,upfront=%d" % (a, b, step, case["upfront"])
+            for (ra, dec) in shared_sky:
+                ctx.count("interleaved")
+                ctx.nontrivial(sig + ",sky=%r" % ((ra, dec),))
+                ox, oy = wz.sky2pix(hdr, ra, dec)      # (column, row), 1-based
+                if not (np.isfinite(ox) and np.isfinite(oy) and -50 <= ox <= SHAPE[1] + 50 and -50 <= oy <= SHAPE[0] + 50):
+                    ctx.count("interleaved_off_image_skipped")      # the property speaks of positions inside the image
+                    continue
+                gx, gy = wcs.sky2pix([ra, dec])
+                if not np.hypot(gx - oy, gy - ox) < 1e-6 * max(1.0, np.hypot(ox, oy)):
+                    ctx.violation("helper %r: sky2pix(%.6f, %.6f) = (%.6f, %.6f), FITS standard gives (row %.6f, col %.6f) (%s)" % (
+                        LIVE[k], ra, dec, gx, gy, oy, ox, sig), "live_sky2pix|" + sig)
+                vx, vy, vr, vth = wcs.sky2pix_vec([ra, dec], 5 * cd, 30.0)
+                ex, ey, esx, esy, eth = wcs.sky2pix_ellipse([ra, dec], 5 * cd, 3 * cd, 30.0)
+                if not (np.hypot(vx - oy, vy - ox) < 1e-6 * max(1.0, np.hypot(ox, oy)) and np.hypot(ex - oy, ey - ox) < 1e-6 * max(1.0, np.hypot(ox, oy))):
+                    ctx.violation("helper %r: sky2pix_vec / sky2pix_ellipse at (%.6f, %.6f) start from (%.6f, %.6f) / (%.6f, %.6f), expected (%.6f, %.6f) (%s)" % (
+                        LIVE[k], ra, dec, vx, vy, ex, ey, oy, ox, sig), "live_vec|" + sig)
+                q1, q2, qa, qb, qpa = wcs.pix2sky_ellipse([ex, ey], esx, esy, eth)
+                if not (abs(qa - 5 * cd) <= 1e-3 * 5 * cd and abs(qb - 3 * cd) <= 1e-3 * 3 * cd and angd(qpa, 30.0, 180.0) <= 0.01):
+                    ctx.violation("helper %r: sky ellipse at (%.6f, %.6f) -> pixel -> sky gives (%.6g, %.6g, %.4f) (%s)" % (
+                        LIVE[k], ra, dec, qa, qb, qpa, sig), "live_ellipse|" + sig)
+            for (x, y) in shared_pix:
+                ctx.count("interleaved")
+                ra, dec = wcs.pix2sky([x, y])
+                rra, rdec = wz.pix2sky(hdr, y, x)
+                bx, by = wcs.sky2pix([ra, dec])
+                if not (float(sphere.dist(ra, dec, rra, rdec)) / cd < 1e-6 and np.hypot(bx - x, by - y) < 1e-6):
+                    ctx.violation("helper %r: pix2sky(%r) = (%.9f, %.9f) (standard: %.9f, %.9f), back to (%.6f, %.6f) (%s)" % (
+                        LIVE[k], (x, y), ra, dec, rra, rdec, bx, by, sig), "live_pix2sky|" + sig)
+    ctx.outcome("interleaved")
 
 
 def angd(a, b, period):
@@ -179,4 +247,4 @@ def ev_conversions(case, ctx):
 
 
 def evaluate(clause, case, ctx):
-    ev_conversions(case, ctx)
+    (ev_interleaved if clause == "interleaved" else ev_conversions)(case, ctx)
